@@ -68,4 +68,19 @@ PROPERTIES = {
                        "(process_blocks), heading-level arithmetic in the Projector and list padding are not covered.",
         "assumptions": A_COMMON + ["A7 process_blocks passes strictly increasing positions <= end (unverified caller: itertools)"],
     },
+    "C13": {
+        "units": ["reader_stacks"], "kani": ["positions"], "kani_cex": [],
+        "explanation": "PARTIAL (mechanism: byte offset -> line and byte column, given the line-start table): Verus proves for line "
+                       "tables of ANY length that to_line_range/to_inline_range return the index of the last table entry <= the offset "
+                       "(and offset minus that entry as column), which on a well-formed table is the unique line containing the offset "
+                       "(lemma_last_le_is_line, lemma_line_unique); the for-enumerate loop is verified through extraction rule T8 "
+                       "(index loop), and Kani re-checks the untouched real functions for table lengths 1..6 (quick) / ..12 (thorough) "
+                       "with fully symbolic entries and offsets. Not covered: line_starts(content) (iterator/str code - CRLF is "
+                       "mishandled there), UTF-16 columns, Document::link_at/block_at_position, nodes_map lookup, handlers.",
+        "assumptions": A_COMMON + [
+            "T8 `for (i, &x) in V.iter().enumerate()` -> `for i in 0..V.len() { let x = V[i]; .. }` preserves meaning (cross-checked by the Kani harnesses on the unmodified function for n <= 12)",
+            "A7 the reader passes a well-formed line table (line_starts is outside the verified set; known to be wrong for CRLF input)",
+            "A9 Kani: table length fixed per harness (1..6 quick, up to 12 thorough)",
+        ],
+    },
 }
